@@ -35,6 +35,7 @@ def _work(job):
     kind, payload, float_ticks = job[:3]
     F = job[3] if len(job) > 3 else 1
     acct_f = job[4] if len(job) > 4 else None
+    two = bool(job[5]) if len(job) > 5 else False     # a second pool (with a position of its own) under the same broker
     states = [_G["graph"].state(n) for n in payload] if kind == "path" else payload
     scn, row0, sa, sb, touched, init, views = _beh(states)
     rangesA = sorted({tuple(k) for k in init[0]["pos"]})
@@ -51,13 +52,14 @@ def _work(job):
     for pool, steps, tag, st0, vw in ((pa, sa, "A", init[0], views[0]), (pb, sb, "B", init[1], views[1])):
         prefix = [e if tag == "A" else uni_drv.mirror_event(e) for e in scn]
         er = rangesA if tag == "A" else [(-hi, -lo) for lo, hi in rangesA]
-        r, err, nbars = uni_drv.run_behaviour(pool, prefix, [s[0] for s in steps], row0, float_ticks, er, F, acct_f)
+        r, err, nbars = uni_drv.run_behaviour(pool, prefix, [s[0] for s in steps], row0, float_ticks, er, F, acct_f, two)
         body = r[len(prefix):]
         # drop the final bar's after_bar record (the behaviour ends inside the last bar)
         if body and body[-1].get("endbar") and (not steps or steps[-1][0]["op"] != "endbar" or len(body) > len(steps)):
             body = body[:len(steps)]
         ip = r[len(prefix) - 1]["proj"] if prefix and len(r) >= len(prefix) else None
-        mm, at = uni_drv.compare_run(pool, body, err, steps, tally, ip, st0, vw, acct_f)
+        # with a second pool in the account the account-level figures contain its position: only the first pool's own state is compared
+        mm, at = uni_drv.compare_run(pool, body, err, steps, tally, ip, st0, None if two else vw, acct_f)
         recs[tag] = body
         for m in mm:
             res.append((tag, m.prop, m.clause, m.text, at))
@@ -121,10 +123,12 @@ def _work(job):
                 break
     rep = None
     if res:
-        rep = {"kind": "uni_behaviour", "scenario": scn, "row0": row0, "events": [s[0] for s in sa], "float_ticks": float_ticks, "F": F, "acct_f": str(acct_f) if acct_f is not None else None,
+        rep = {"kind": "uni_behaviour", "scenario": scn, "row0": row0, "events": [s[0] for s in sa], "float_ticks": float_ticks, "F": F, "acct_f": str(acct_f) if acct_f is not None else None, "two_pools": two,
                "mismatches": [f"{t} {p}/{c}: {x}" for t, p, c, x, _ in res],
                "packed": pack({"states": states, "universe": u})}   # the TLC states (spec side of every step), pickled
     counts["info/run_on_resampled_5min_grid" if F > 1 else "info/run_on_1min_grid"] = 1
+    if two:
+        counts["info/run_with_a_second_pool_under_the_same_broker"] = 1
     sample = {"row0": row0, "minutes_per_bar": F, "scenario": [e["op"] for e in scn], "events": [e[0]["op"] + (":" + str(e[0].get("next", "")) if e[0]["op"] == "endbar" else "") + "->" + e[1] for e in sa]}
     return res, rep, counts, len(sa), sample
 
@@ -169,13 +173,14 @@ def explore(chk: Check, owner: str, cross=False):
     # every fifth behaviour is supplied as 5 one-minute rows per bar and run on a resampled (5 min) grid
     # ... and every third one in an account quoted in USD while the pool quotes in USDC at 0.95 USD (market quote != account quote)
     AF = Fraction(19, 20)
-    jobs = [("path", p, i % 4 == 3, 5 if i % 5 == 2 else 1, AF if i % 3 == 1 else None) for i, p in enumerate(paths)]
+    two = owner == "C08"       # every seventh fee behaviour runs with a second pool under the same broker
+    jobs = [("path", p, i % 4 == 3, 5 if i % 5 == 2 else 1, AF if i % 3 == 1 else None, two and i % 7 == 5) for i, p in enumerate(paths)]
     simcfg = "MC_UniLp_sim_fee.cfg" if owner == "C08" else "MC_UniLp_sim.cfg"
     sres, behs = tlc.simulate(SPEC, MC / simcfg, chk.tmp, num=(48 if cross else 160) if quick else (1500 if cross else 3000), depth=12 if quick else 20, seed=chk.seed,
                               workers=16, timeout=1500)
     chk.add_tlc(sres, "simulate " + simcfg)
     chk.spec_violation(sres, "simulate")
-    jobs += [("beh", [s for _, s in b], i % 4 == 3, 5 if i % 5 == 2 else 1, AF if i % 3 == 1 else None) for i, b in enumerate(behs)]
+    jobs += [("beh", [s for _, s in b], i % 4 == 3, 5 if i % 5 == 2 else 1, AF if i % 3 == 1 else None, two and i % 7 == 5) for i, b in enumerate(behs)]
     _G["graph"], _G["universe"] = g, universe
     _G.pop("pa", None), _G.pop("pb", None)
     nontrivial = set()
@@ -219,7 +224,7 @@ def replay(chk: Check, path: str, owner: str) -> int:
     d = unpack(rep["packed"])
     _G["universe"] = d["universe"]
     _G.pop("pa", None), _G.pop("pb", None)
-    res_, rep2, counts, nsteps, sample = _work(("beh", d["states"], rep["float_ticks"], rep.get("F", 1), Fraction(rep["acct_f"]) if rep.get("acct_f") else None))
+    res_, rep2, counts, nsteps, sample = _work(("beh", d["states"], rep["float_ticks"], rep.get("F", 1), Fraction(rep["acct_f"]) if rep.get("acct_f") else None, rep.get("two_pools", False)))
     chk.traces += 1
     chk.evaluations += nsteps
     for c, n in counts.items():
